@@ -3,7 +3,10 @@
 cd /verif
 TIER=${1:-quick}
 IDS=$(python3 -c "import json; print(' '.join(c['property_id'] for c in json.load(open('MANIFEST.json'))['checks']))")
-(cd lean && lake build >/dev/null 2>&1)
+# the MANIFEST setup command: everything (Properties.lean imports every property file) must build together
+if ! (cd /verif && /venv/bin/python -m harness.tables >/dev/null && cd lean && lake build >/tmp/runall_build.log 2>&1); then
+  echo "SETUP exit=1 the full lake build fails:"; grep -E 'error' /tmp/runall_build.log | head -5
+fi
 for p in $IDS; do
   ( /venv/bin/python check.py $p --tier $TIER > /tmp/runall_$p.log 2>&1; echo "$p exit=$? $(tail -1 /tmp/runall_$p.log)" ) &
 done
